@@ -799,7 +799,9 @@ def fresh_db(workdir):
     import shutil
     if "path" not in _template:
         import tempfile
+        import atexit
         d = tempfile.mkdtemp(prefix="c25-template-")
+        atexit.register(shutil.rmtree, d, ignore_errors=True)
         _template["dir"] = d
         _template["path"] = os.path.join(d, "redun.db")
         close_scheduler(file_scheduler(_template["path"]))
